@@ -322,29 +322,39 @@ pub(crate) fn dict_methods(registry: &mut MethodsBuilder) {
             pairs.map(|x| x.get())
         };
 
-        let mut this = DictMut::from_value(this)?;
+        // Fail now if `this` cannot be mutated at all.
+        DictMut::from_value(this)?;
         if let Some(pairs) = pairs {
             match DictRef::from_value(pairs) {
                 Some(dict) => {
+                    let mut this = DictMut::from_value(this)?;
                     for (k, v) in dict.iter_hashed() {
                         this.aref.insert_hashed(k, v);
                     }
                 }
                 _ => {
                     for v in pairs.iterate(heap)? {
-                        let mut it = v.iterate(heap)?;
-                        // `StarlarkIterator` is fused.
-                        let (Some(k), Some(v), None) = (it.next(), it.next(), it.next()) else {
-                            return Err(anyhow::anyhow!(
-                            "dict.update expect a list of pairs or a dictionary as first argument, got a list of non-pairs.",
-                        ).into());
+                        // One of the "pairs" may be `this` itself (`x.update([x])`), so `this` must
+                        // not be borrowed for mutation while the pair is read.
+                        let (k, v) = {
+                            let mut it = v.iterate(heap)?;
+                            // `StarlarkIterator` is fused.
+                            let (Some(k), Some(v), None) = (it.next(), it.next(), it.next()) else {
+                                return Err(anyhow::anyhow!(
+                                "dict.update expect a list of pairs or a dictionary as first argument, got a list of non-pairs.",
+                            ).into());
+                            };
+                            (k, v)
                         };
-                        this.aref.insert_hashed(k.get_hashed()?, v);
+                        DictMut::from_value(this)?
+                            .aref
+                            .insert_hashed(k.get_hashed()?, v);
                     }
                 }
             }
         }
 
+        let mut this = DictMut::from_value(this)?;
         for (k, v) in kwargs.iter_hashed() {
             this.aref.insert_hashed(k, v);
         }
